@@ -218,6 +218,7 @@ func mainKeys(out string, klen [6]int, rp *replayInput, trace bool) {
 	sum := coqout.NewSummary("exhaustive sweeps of the real node.Key functions over all bit strings (packed MSB first, zero padded) up to a length bound n, folded into a checksum h <- (31h + x + 1) mod 2^61 over every output byte / value, recomputed by Verif.Mkvs.KeySweep on the byte-wise model: " +
 		"1 Split at every split point; 2 Merge of every a,b with |a|+|b| <= n; 3 AppendBit of both bits; 4 BitLength and GetBit at every position of the packed key; 5 CommonPrefixLen of every pair; 6 CommonPrefixLen of a against every prefix of a with one bit flipped; " +
 		"evaluations = distinct_nontrivial = number of calls of the real functions (every call has distinct inputs)")
+	sum.Extra["api_coverage"] = apiCoverage("keys")
 	defer func() {
 		w.Close()
 		sum.Write(out)
